@@ -8,3 +8,14 @@ func VerifWaiters(s *Weighted) int {
 	defer s.mu.Unlock()
 	return s.waiters.Len()
 }
+
+// VerifReleaseRacingCancel performs Release(n)'s critical section while `cancel` (the context of a parked
+// Acquire) fires inside it, so that a waiter admitted by this release may observe "acquired after cancelled".
+func VerifReleaseRacingCancel(s *Weighted, n int64, cancel func(), settle func()) {
+	s.mu.Lock()
+	cancel()
+	settle()
+	s.cur -= n
+	s.notifyWaiters()
+	s.mu.Unlock()
+}
